@@ -129,12 +129,16 @@ func (se *subscriptionEntry) prepareResponse(resp *requests.Response) *requests.
 func (se *subscriptionEntry) Close() {
 	simhook.Enter("sub.close:" + se.id)
 	defer simhook.Exit()
-	se.TryLock()
+	se.Lock()
 	isClosed := se.isClosed
 	se.Unlock()
 	if isClosed {
 		return
 	}
+	// the listener can finish on its own meanwhile (upstream is done) and close the channel
+	defer func() {
+		recover()
+	}()
 	simhook.Yield("sub.close.send")
 	se.closeCh <- struct{}{}
 }
